@@ -859,6 +859,151 @@ func main() {
 			}
 		}
 
+		// ---- message families: a signature must not verify for ANOTHER message, whatever the two messages share
+		// (length classes, a common 32-byte suffix, zero-left-padding, 64-byte point encodings differing in x only),
+		// in both orders, all in this one process; and Sign(sk, m) must be sk * HashToPoint(m) as bn256 computes it
+		// directly, also after many other messages have been hashed.
+		{
+			expect := func(m []byte) []byte {
+				Hm := new(bn256.G1)
+				Hm.HashToPoint(m)
+				return new(bn256.G1).ScalarMult(Hm, skv).Marshal()
+			}
+			checkSign := func(family string, m []byte) groupsig.Signature {
+				sg := groupsig.Sign(*sk, m)
+				okE := bytes.Equal(sg.Serialize(), expect(m))
+				okV := groupsig.VerifySig(*pk, m, sg)
+				res.Count(fmt.Sprintf("msg:%s:sign=expected:%v,verifies:%v", family, okE, okV), fmt.Sprintf("%d/msgsign/%s", inst, hexs(m)), true)
+				if !okE {
+					viol("C14/sign:other-message-point:"+family, "Sign(sk, m) is not sk * HashToPoint(m) (computed with bn256 directly) after other messages were hashed",
+						map[string]interface{}{"sk": skv.String(), "msg": hexs(m), "len": len(m), "got": hexs(sg.Serialize()), "want": hexs(expect(m))})
+				}
+				if !okV {
+					viol("C14/reject-honest:message-family:"+family, "the honest signature of this message does not verify", map[string]interface{}{"sk": skv.String(), "msg": hexs(m), "len": len(m)})
+				}
+				return sg
+			}
+			for _, n := range []int{0, 1, 31, 32, 33, 64, 100} {
+				checkSign(fmt.Sprintf("length-%d", n), rng.Bytes(n))
+			}
+			type mpair struct {
+				family string
+				a, b   []byte
+			}
+			suf := rng.Bytes(32)
+			short := rng.Bytes(1 + rng.Intn(20))
+			py := rng.Bytes(32)
+			base := rng.Bytes(1 + rng.Intn(80))
+			pairs := []mpair{
+				{"shared-32-byte-suffix", append(rng.Bytes(8), suf...), append(rng.Bytes(32), suf...)},
+				{"suffix-vs-bare-32-bytes", cp(suf), append(rng.Bytes(1+rng.Intn(40)), suf...)},
+				{"zero-left-padded-to-32", cp(short), append(make([]byte, 32-len(short)), short...)},
+				{"64-byte-points-differing-in-x", append(rng.Bytes(32), py...), append(rng.Bytes(32), py...)},
+				{"empty-vs-32-zero-bytes", []byte{}, make([]byte, 32)},
+				{"empty-vs-one-zero-byte", []byte{}, []byte{0}},
+				{"one-more-byte", cp(base), append(cp(base), byte(rng.Intn(256)))},
+				{"last-bit-differs", cp(msg), flip(msg, 8*len(msg)-1)},
+				{"100-bytes-shared-suffix", append(rng.Bytes(68), suf...), append(rng.Bytes(68), suf...)},
+			}
+			for _, pr := range pairs {
+				for order := 0; order < 2; order++ {
+					m1, m2 := pr.a, pr.b
+					if order == 1 {
+						m1, m2 = pr.b, pr.a
+					}
+					s1 := checkSign(pr.family, m1)
+					cross12 := groupsig.VerifySig(*pk, m2, s1) // signature of m1 offered for m2
+					s2 := checkSign(pr.family, m2)
+					cross21 := groupsig.VerifySig(*pk, m1, s2)
+					same := bytes.Equal(s1.Serialize(), s2.Serialize())
+					res.Count(fmt.Sprintf("msg:%s:cross-accepted=%v,%v,same-signature=%v", pr.family, cross12, cross21, same),
+						fmt.Sprintf("%d/msgpair/%s/%s", inst, hexs(m1), hexs(m2)), true)
+					if cross12 || cross21 || same {
+						viol("C14/accept-other:other-message:"+pr.family, "a signature made for one message verifies for a different message (or both messages get the same signature)",
+							map[string]interface{}{"sk": skv.String(), "pk": hexs(pkb), "signed_msg": hexs(m1), "other_msg": hexs(m2), "signature": hexs(s1.Serialize()),
+								"verifies_for_other": cross12, "reverse_verifies": cross21, "same_signature": same})
+					}
+				}
+			}
+		}
+
+		// ---- identity elements that arise from the API's own group arithmetic (never through Deserialize): secret
+		// keys 0, r, 2r; the aggregate of a key and its negation; shares that cancel in RecoverGroupSignature.
+		// No (identity key, message, identity signature) combination may verify.
+		{
+			type named struct {
+				how string
+				pk  groupsig.Pubkey
+				sg  groupsig.Signature
+			}
+			var idents []named
+			for _, z := range []struct {
+				how string
+				v   *big.Int
+			}{{"seckey-0", big.NewInt(0)}, {"seckey-r", new(big.Int).Set(order)}, {"seckey-2r", new(big.Int).Lsh(order, 1)}} {
+				s0 := groupsig.NewSeckeyFromBigInt(new(big.Int).Set(z.v))
+				idents = append(idents, named{z.how, *groupsig.GeneratePubkey(*s0), groupsig.Sign(*s0, msg)})
+			}
+			negv := new(big.Int).Sub(order, skv)
+			skNeg := groupsig.NewSeckeyFromBigInt(new(big.Int).Set(negv))
+			aggPk := groupsig.AggregatePubkeys([]groupsig.Pubkey{*pk, *groupsig.GeneratePubkey(*skNeg)})
+			aggSk := groupsig.AggregateSeckeys([]groupsig.Seckey{*sk, *skNeg})
+			if aggPk != nil && aggSk != nil {
+				idents = append(idents, named{"aggregate-key-and-negation", *aggPk, groupsig.Sign(*aggSk, msg)})
+			}
+			// two shares with ids 1, 2 and secrets s, 2s: Lagrange at 0 gives 2s - 2s = 0
+			{
+				s1v := randScalar(rng)
+				s2v := new(big.Int).Lsh(s1v, 1)
+				s2v.Mod(s2v, order)
+				var id1, id2 groupsig.ID
+				id1.SetBigInt(big.NewInt(1))
+				id2.SetBigInt(big.NewInt(2))
+				sh := map[string]groupsig.Signature{
+					id1.GetHexString(): groupsig.Sign(*groupsig.NewSeckeyFromBigInt(new(big.Int).Set(s1v)), msg),
+					id2.GetHexString(): groupsig.Sign(*groupsig.NewSeckeyFromBigInt(new(big.Int).Set(s2v)), msg),
+				}
+				var rec *groupsig.Signature
+				func() {
+					defer func() { recover() }()
+					rec = groupsig.RecoverGroupSignature(sh, 2)
+				}()
+				if rec != nil && aggPk != nil {
+					idents = append(idents, named{"recover-cancelling-shares", *aggPk, *rec})
+				}
+			}
+			for _, e := range idents {
+				for _, combo := range []struct {
+					what string
+					pk   groupsig.Pubkey
+					sg   groupsig.Signature
+				}{{"identity-key+identity-signature", e.pk, e.sg}, {"honest-key+identity-signature", *pk, e.sg}, {"identity-key+honest-signature", e.pk, sig}} {
+					var ok bool
+					pan := ""
+					func() {
+						defer func() {
+							if r := recover(); r != nil {
+								pan = fmt.Sprint(r)
+							}
+						}()
+						ok = groupsig.VerifySig(combo.pk, msg, combo.sg)
+					}()
+					id := fmt.Sprintf("%d/identarith/%s/%s", inst, e.how, combo.what)
+					in := map[string]interface{}{"how": e.how, "combination": combo.what, "msg": hexs(msg), "sk": skv.String(),
+						"pk_bytes": hexs(combo.pk.Serialize()), "sig_bytes": hexs(combo.sg.Serialize())}
+					if pan != "" {
+						res.Count("identity-arith:"+e.how+":panic", id, true)
+						viol("C14/panic:identity-arithmetic", "VerifySig panicked on an identity element produced by the API: "+pan, in)
+						continue
+					}
+					res.Count(fmt.Sprintf("identity-arith:%s:%s:accepted=%v", e.how, combo.what, ok), id, true)
+					if ok {
+						viol("C14/identity:arithmetic:"+e.how, "VerifySig accepts an identity key/signature produced by the API's own arithmetic ("+combo.what+")", in)
+					}
+				}
+			}
+		}
+
 		// ---- purity: no groupsig API call may modify its arguments (keys and signatures hold pointers to curve
 		// points, so a "value copy" shares the point). Every input is serialized before and after each call; honest
 		// (pk, msg, sig) triples are verified again AFTER the aggregation-type calls that took them as arguments.
